@@ -90,6 +90,14 @@ Definition prop_c04 (c : case) : bool :=
       match p with GPtr x => range_ok x | _ => true end
     (* vInit: tags min=1 on A and B, Validate of C rejects negatives - whether the value came
        from a setting or from InitDefaults *)
+    (* vHook: U (an IntUnpacker) under min=5, S (a StringUnpacker) under required, and no zero
+       among the entries of L and M (their type's Validate rejects it) - null entries included *)
+    | GStructV [GP (CI u); GP (CS s0); GSlice l; GMapV m] =>
+      if String.eqb what "vHook"
+      then (5 <=? u) && negb (String.eqb s0 "") &&
+           forallb (fun e => match e with GP (CI z) => negb (z =? 0) | _ => true end) l &&
+           forallb (fun kv => match snd kv with GP (CI z) => negb (z =? 0) | _ => true end) m
+      else true
     | GStructV [GP (CI a); GP (CI b); GP (CI c0)] =>
       if String.eqb what "vInit" then (1 <=? a) && (1 <=? b) && (0 <=? c0) else range_ok v
     | _ => range_ok v
